@@ -80,7 +80,10 @@ class ProbeLog:
 
 
 def build_probe_uod(hw: SimHardware, plog: ProbeLog, clock_read: Callable[[], float],
-                    data_log_interval: float = 5.0) -> UnitOperationDefinitionBase:
+                    data_log_interval: float = 5.0, extra_tags: list | None = None,
+                    extra_cmds: list | None = None) -> UnitOperationDefinitionBase:
+    """extra_tags: [[name, unit, value]] plain tags of a UOD variant (C20); extra_cmds: [[name, [units] | None]]
+    regex-number commands of the variant (they complete at once and write nothing)."""
     def init_fn(cmd: UodCommand) -> None:
         plog.add("init", cmd)
 
@@ -181,6 +184,10 @@ def build_probe_uod(hw: SimHardware, plog: ProbeLog, clock_read: Callable[[], fl
         .with_process_value("PV1")
         .with_process_value("OUT1")
     )
+    for name, unit, value in (extra_tags or []):
+        b = b.with_tag(Tag(name, value=value, unit=unit))
+    for name, units in (extra_cmds or []):
+        b = b.with_command_regex_arguments(name, RegexNumber(units=units), noop_exec, init_fn, fin_fn)
     uod = b.build()
     hw.connect()
     return uod
